@@ -79,7 +79,16 @@ def val_parse(s):
             return float(int(t[2:], 16))
         if any(c not in "0123456789.+-E" for c in t.upper()):
             raise ValueError(t)
-        return float(t)
+        # the ROM's ASCII-to-float routine: a run of signs (each minus toggles), digits with at most one point (none at
+        # all is zero: a lone '.' reads as 0), an optional E with optional sign and digits (missing digits: E0)
+        import re as _re
+        m = _re.fullmatch(r"([+-]*)(\d*)(?:\.(\d*))?(?:E([+-]?)(\d*))?", t.upper())
+        if not m:
+            raise ValueError(t)
+        signs, ip, fp, es, ed = m.groups()
+        mant = float((ip or "0") + "." + (fp or "0"))
+        v = mant * 10.0 ** (int((es or "") + (ed or "0")) if ed else 0)
+        return -v if signs.count("-") % 2 else v
     except ValueError:
         raise OutOfDomain("VAL of %r" % s)
 
